@@ -348,7 +348,13 @@ func (s *Subscriber) OnSyncFinished() (<-chan SyncFinished, context.CancelFunc) 
 	// not reading the channel immediately.
 	cq := chanqueue.New[SyncFinished]()
 	ch := cq.In()
-	s.addEventChan <- ch
+	select {
+	case s.addEventChan <- ch:
+	case <-s.closing:
+		// Subscriber is closed and nothing serves addEventChan anymore.
+		cq.Close()
+		return cq.Out(), func() {}
+	}
 
 	cncl := func() {
 		if ch == nil {
